@@ -440,6 +440,29 @@ type histFamily struct {
 	dq, dt int // depth quick / thorough
 }
 
+// decodeOps: Decode() of another packet into the object at hand (an application
+// may keep one message object per type and decode into it again and again).
+// Afterwards the object must be exactly what a fresh object decoded from those
+// bytes is: nothing of the earlier content may survive.
+func decodeOps(ps ...*refcodec.Packet) []hop {
+	var ops []hop
+	for _, x := range ps {
+		x := x
+		ops = append(ops, hop{"Decode(" + x.String() + ")", func(m message.Message, p *refcodec.Packet) {
+			wire := refcodec.Encode(x)
+			if _, err := m.Decode(wire); err != nil {
+				panic("reference encoding rejected by a used object: " + err.Error())
+			}
+			q := *x
+			q.Topics = append([][]byte(nil), x.Topics...)
+			q.QoSs = append([]byte(nil), x.QoSs...)
+			q.Codes = append([]byte(nil), x.Codes...)
+			*p = q
+		}})
+	}
+	return ops
+}
+
 func histFamilies() []histFamily {
 	pub := func(q byte, id uint16, pl string, retain bool) *refcodec.Packet {
 		return &refcodec.Packet{Type: refcodec.PUBLISH, QoS: q, ID: id, Topic: []byte("t/0"), Payload: []byte(pl), Retain: retain}
@@ -449,23 +472,23 @@ func histFamilies() []histFamily {
 	for _, p := range []*refcodec.Packet{pub(0, 0, "hello", false), pub(0, 0, "", false), pub(0, 0, "x", true), pub(1, 9, "hello", false), pub(2, 65535, "", true)} {
 		ps = append(ps, decodedStart(p, false), decodedStart(p, true))
 	}
-	fams = append(fams, histFamily{"publish", refcodec.PUBLISH, ps, pubOps(), 4, 5})
+	fams = append(fams, histFamily{"publish", refcodec.PUBLISH, ps, append(pubOps(), decodeOps(pub(0, 0, "", false), pub(1, 300, "other", true))...), 4, 5})
 	sub := &refcodec.Packet{Type: refcodec.SUBSCRIBE, ID: 3, Topics: [][]byte{[]byte("a"), []byte("b/#")}, QoSs: []byte{0, 1}}
 	sub1 := &refcodec.Packet{Type: refcodec.SUBSCRIBE, ID: 65535, Topics: [][]byte{[]byte("c")}, QoSs: []byte{2}}
-	fams = append(fams, histFamily{"subscribe", refcodec.SUBSCRIBE, []hstart{freshStart(refcodec.SUBSCRIBE), decodedStart(sub, false), decodedStart(sub1, false)}, subOps(), 4, 5})
+	fams = append(fams, histFamily{"subscribe", refcodec.SUBSCRIBE, []hstart{freshStart(refcodec.SUBSCRIBE), decodedStart(sub, false), decodedStart(sub1, false)}, append(subOps(), decodeOps(sub1)...), 4, 5})
 	unsub := &refcodec.Packet{Type: refcodec.UNSUBSCRIBE, ID: 3, Topics: [][]byte{[]byte("a"), []byte("b/#")}}
-	fams = append(fams, histFamily{"unsubscribe", refcodec.UNSUBSCRIBE, []hstart{freshStart(refcodec.UNSUBSCRIBE), decodedStart(unsub, false)}, unsubOps(), 4, 5})
+	fams = append(fams, histFamily{"unsubscribe", refcodec.UNSUBSCRIBE, []hstart{freshStart(refcodec.UNSUBSCRIBE), decodedStart(unsub, false)}, append(unsubOps(), decodeOps(&refcodec.Packet{Type: refcodec.UNSUBSCRIBE, ID: 9, Topics: [][]byte{[]byte("c")}})...), 4, 5})
 	suback := &refcodec.Packet{Type: refcodec.SUBACK, ID: 3, Codes: []byte{0, 0x80}}
-	fams = append(fams, histFamily{"suback", refcodec.SUBACK, []hstart{freshStart(refcodec.SUBACK), decodedStart(suback, false)}, subackOps(), 4, 6})
+	fams = append(fams, histFamily{"suback", refcodec.SUBACK, []hstart{freshStart(refcodec.SUBACK), decodedStart(suback, false)}, append(subackOps(), decodeOps(&refcodec.Packet{Type: refcodec.SUBACK, ID: 9, Codes: []byte{1}})...), 4, 6})
 	connack := &refcodec.Packet{Type: refcodec.CONNACK, SessionPresent: true, ReturnCode: 0}
-	fams = append(fams, histFamily{"connack", refcodec.CONNACK, []hstart{freshStart(refcodec.CONNACK), decodedStart(connack, false)}, connackOps(), 4, 6})
+	fams = append(fams, histFamily{"connack", refcodec.CONNACK, []hstart{freshStart(refcodec.CONNACK), decodedStart(connack, false)}, append(connackOps(), decodeOps(&refcodec.Packet{Type: refcodec.CONNACK, ReturnCode: 2})...), 4, 6})
 	for _, t := range []byte{refcodec.PUBACK, refcodec.PUBREC, refcodec.PUBREL, refcodec.PUBCOMP, refcodec.UNSUBACK} {
 		ack := &refcodec.Packet{Type: t, ID: 513}
-		fams = append(fams, histFamily{refcodec.Name(t), t, []hstart{freshStart(t), decodedStart(ack, false)}, ackOps(), 4, 6})
+		fams = append(fams, histFamily{refcodec.Name(t), t, []hstart{freshStart(t), decodedStart(ack, false)}, append(ackOps(), decodeOps(&refcodec.Packet{Type: t, ID: 2})...), 4, 6})
 	}
 	conn := &refcodec.Packet{Type: refcodec.CONNECT, ProtoName: "MQTT", Level: 4, CleanSess: true, KeepAlive: 10, ClientID: []byte("abc")}
 	connw := &refcodec.Packet{Type: refcodec.CONNECT, ProtoName: "MQTT", Level: 4, KeepAlive: 10, ClientID: []byte("abc"), Will: true, WillQoS: 1, WillTopic: []byte("w"), WillMessage: []byte("m"), HasUser: true, User: []byte("uu"), HasPass: true, Pass: []byte("pp")}
-	fams = append(fams, histFamily{"connect", refcodec.CONNECT, []hstart{freshStart(refcodec.CONNECT), decodedStart(conn, false), decodedStart(connw, false)}, connectOps(), 4, 5})
+	fams = append(fams, histFamily{"connect", refcodec.CONNECT, []hstart{freshStart(refcodec.CONNECT), decodedStart(conn, false), decodedStart(connw, false)}, append(connectOps(), decodeOps(conn)...), 4, 5})
 	return fams
 }
 
